@@ -14,7 +14,8 @@ SPELL = {
     "Comma": [","], "QuestionMark": ["?"], "If": ["if"], "Then": ["then"], "Else": ["else"],
     "True": ["true"], "False": ["false"], "NaN": ["NaN"], "Inf": ["inf"],
     "LeftBracket": ["["], "RightBracket": ["]"], "LeftCurly": ["{"], "RightCurly": ["}"], "Colon": [":"],
-    "Period": ["."], "Equal": ["="], "Semicolon": [";"], "Newline": ["\n"],
+    "Period": ["."], "Equal": ["="], "Semicolon": [";"], "Newline": ["\n"], "Let": ["let"],
+    "ProcedurePrint": ["print"], "ProcedureAssert": ["assert"], "ProcedureAssertEq": ["assert_eq"], "ProcedureType": ["type"],
 }
 BINLEVEL = {"Arrow": 2, "To": 2, "LogicalOr": 3, "LogicalAnd": 4, "LessThan": 6, "GreaterThan": 6,
             "LessOrEqual": 6, "GreaterOrEqual": 6, "EqualEqual": 6, "NotEqual": 6, "Plus": 7, "Minus": 7,
